@@ -523,7 +523,7 @@ def _same(objs, snap):
     for o, (qd, qD, A) in zip(objs, snap):
         if not np.array_equal(o.qd, qd) or len(o.qD) != len(qD) or any(not np.array_equal(a, b) for a, b in zip(o.qD, qD)):
             return False
-        if len(o.A) != len(A) or any(a.shape != b.shape or not np.array_equal(a, b) for a, b in zip(o.A, A)):
+        if len(o.A) != len(A) or any(a.shape != b.shape or a.dtype != b.dtype or not np.array_equal(a, b) for a, b in zip(o.A, A)):
             return False
     return True
 
@@ -1002,8 +1002,12 @@ def check_krylov(inp):
     import pytenet.krylov as K
     alg = inp['alg']; m = inp['m']
     A = arr(inp['A']); v = arr(inp['v'])
-    if np.all(A.imag == 0) and np.all(v.imag == 0):
-        A = A.real.astype(float); v = v.real.astype(float)
+    if np.all(A.imag == 0):
+        A = A.real.astype(float)
+    if np.all(v.imag == 0):
+        v = v.real.astype(float)        # a real start vector stays real even for a complex map (dtype handling of the iteration)
+        if inp.get('v_int'):
+            v = np.rint(v).astype(int)
     n = len(v)
     if not np.any(v):
         return []
@@ -1140,6 +1144,20 @@ def check_compress(inp):
         fails.append('tol = 0 but the compression is not exact')
     if not np.array_equal(x.qD[0], old_q[0]) or not np.array_equal(x.qD[-1], old_q[1]):
         fails.append('boundary quantum numbers changed')
+    # the first truncated bond keeps exactly the Schmidt values prescribed by the tolerance rule
+    if L >= 2:
+        d = len(x.qd)
+        b = 1 if mode == 'left' else L - 1
+        M = (old / n0).reshape((d ** b, d ** (L - b)))
+        sv = np.linalg.svd(M, compute_uv=False)
+        w = np.sort(sv ** 2)              # ascending
+        cum = np.cumsum(w)
+        if not np.any(np.abs(cum - tol) < 1e-9) and not np.any(np.abs(np.diff(w)) < 1e-12):
+            expected = int(np.sum(cum > tol))
+            # singular values that are numerically zero are dropped by the strict comparison at tol = 0 as well
+            expected = min(expected, int(np.sum(sv > 1e-14)))
+            if x.bond_dims[b] != expected:
+                fails.append(f'first truncated bond keeps {x.bond_dims[b]} Schmidt values, the tolerance rule prescribes {expected}')
     return fails
 
 
@@ -1281,7 +1299,7 @@ def _op_once(task, given, rng, focus):
         qd, (qD,) = _mk_charges(task, d, [P], given, rng)
         psi = _rand_obj(rng, 'mps', qd, qD)
         qDW = [np.array([0])] + [_charges(f'qW{i}', PW[i], given, rng) for i in range(1, len(PW) - 1)] + [np.array([0])]
-        H = _rand_obj(rng, 'mpo', qd.copy(), qDW)
+        H = _rand_obj(rng, 'mpo', qd.copy(), qDW, real=bool(rng.integers(0, 2)))      # real and complex Hamiltonian tensors
         snap = _snapshot([H])
         old = (psi.qD[0].copy(), psi.qD[-1].copy()); n0 = float(np.linalg.norm(_dense(psi, 'mps')))
         if n0 == 0:
@@ -1535,6 +1553,34 @@ def check_molecular_gauge(inp):
     if not close(M, Mr, float(np.max(np.abs(Mr)))):
         return ['gauge-transformed MPO differs from the MPO of the rotated coefficients']
     return []
+
+
+@check('opgraph_mpo')
+def check_opgraph_mpo(inp):
+    import pytenet as ptn
+    from refs import words as W
+    g = _graph_from_json(inp['graph'])
+    for n in g.nodes.values():
+        n.qnum = 0
+    if not g.is_consistent():
+        return []
+    rng = np.random.default_rng(7)
+    opmap = {0: rng.standard_normal((2, 2)), 1: rng.standard_normal((2, 2))}
+    words = W.graph_words(g)
+    try:
+        mpo = ptn.MPO.from_opgraph([0, 0], g, opmap, compute_nid_map=True)
+        M = mpo.as_matrix()
+    except Exception as e:
+        return [f'from_opgraph raised {type(e).__name__}: {e}']
+    ref = W.words_matrix(words, opmap, 2).astype(complex)
+    fails = []
+    if not close(M, ref, float(np.max(np.abs(ref)))):
+        fails.append('MPO matrix differs from the operator denoted by the graph')
+    if set(mpo.nid_map.keys()) != set(g.nodes.keys()):
+        fails.append('nid_map does not cover exactly the graph nodes')
+    if mpo.bond_dims != W.layer_widths(g):
+        fails.append('bond dimensions differ from the layer widths')
+    return fails
 
 # -------------------------------------------------------------------------------------------
 
